@@ -50,10 +50,13 @@ pub struct Layout {
     /// bytes of the 64-byte name field after the terminating NUL are stale non-zero bytes instead of zeros
     /// (MS-CFB only requires the terminator; the name length field delimits the name)
     pub name_garbage: bool,
+    /// version 3 only: the upper 4 bytes of every allocated entry's 8-byte stream size hold junk (MS-CFB 2.6.3: old writers
+    /// leave them uninitialised, readers must ignore them when sectors are 512 bytes)
+    pub size_hi_garbage: bool,
 }
 impl Default for Layout {
     fn default() -> Self {
-        Layout { v4: false, order: Order::Sequential, mini_order: Order::Sequential, unused_dir_entries: 0, dir_reversed: false, free_sectors: 0, extra_fat_sectors: 0, free_mini_sectors: 0, name_garbage: false }
+        Layout { v4: false, order: Order::Sequential, mini_order: Order::Sequential, unused_dir_entries: 0, dir_reversed: false, free_sectors: 0, extra_fat_sectors: 0, free_mini_sectors: 0, name_garbage: false, size_hi_garbage: false }
     }
 }
 
@@ -248,6 +251,7 @@ pub fn write(entries: &[Entry], lay: &Layout) -> Vec<u8> {
         e[76..80].copy_from_slice(&c.to_le_bytes());
         e[116..120].copy_from_slice(&start.to_le_bytes());
         e[120..128].copy_from_slice(&size.to_le_bytes());
+        if lay.size_hi_garbage && !lay.v4 && typ != 0 { e[124..128].copy_from_slice(&[0x5A, 0xA5, 0x01, 0x80]); }
         e
     };
     let mut dir_bytes = dirent("Root Entry", 5, FREESECT, FREESECT, child_of_root, if ministream.is_empty() { ENDOFCHAIN } else { ms_ids[0] }, ministream.len() as u64);
